@@ -1,6 +1,6 @@
 SPECIFICATION Spec
 CONSTANTS
-  MaxRebind = 5
+  MaxRebind = 6
 INVARIANTS Refines
 POSTCONDITION Emit
 CHECK_DEADLOCK FALSE
